@@ -1,7 +1,8 @@
 (* C08  Bytes sent to the terminal arrive once, in order, or the loss is flagged.
    The port model is polymorphic in the payload: the theorems hold for bytes carrying any ghost tag. *)
 From Coq Require Import ZArith List Bool.
-From Dmd Require Import Model.Bits Model.Fifo Model.Duart Proofs.FifoProofs Proofs.PortProofs.
+From Dmd Require Import Model.Bits Model.Fifo Model.Mem Model.Duart Proofs.FifoProofs Proofs.PortProofs Proofs.DuartProofs Proofs.DeviceRefine.
+Import ListNotations.
 Open Scope Z_scope.
 
 (* the circular buffer is a FIFO of at most three elements *)
@@ -68,3 +69,34 @@ Theorem C08_invariant_reachable :
     (forall tm, PInv (port_new dflt tm)) /\ (forall (o : @pop A) p, PInv p -> PInv (pstep is02 o p)).
 Proof. intros A dflt is02. split; [exact (pinv_new dflt) | exact (pinv_step dflt is02)]. Qed.
 Print Assumptions C08_invariant_reachable.
+
+(* ---- the same at the device's register interface (Proofs/DeviceRefine.v) ---- *)
+
+(* the register map as a function: every device operation (a read or write at any offset with any value, a
+   service call at any time, an interrupt poll, a host enqueue or poll on either channel, a mouse event) does to a
+   channel's port exactly the one port operation `chan_op` names, or nothing *)
+Theorem C08_register_map_refines_ports :
+  forall (b : bool) (o : dop) (d : duart),
+    port_of b (dstep o d)
+    = match chan_op b o d with Some po => @pstep Z is02z po (port_of b d) | None => port_of b d end.
+Proof. exact dstep_chan. Qed.
+Print Assumptions C08_register_map_refines_ports.
+
+(* over every history of device operations, on either channel (b): the bytes the guest read at the channel's
+   receive register while its status register showed RxRDY, followed by what is still in that channel's pipeline,
+   form an in-order subsequence of the bytes the host queued for that channel -- whatever happens meanwhile on the
+   other channel, the mouse inputs and the interrupt logic *)
+Theorem C08_device_rx_in_order_at_most_once :
+  forall (b : bool) (ops : list dop) (d : duart) (E D : list Z),
+    DInv d -> loopback (port_of b d) = false -> forallb (dev_no_lb b) ops = true ->
+    subseq (D ++ rx_pipe (port_of b d)) E ->
+    let '(d', E', D') := drx_run b ops d E D in subseq (D' ++ rx_pipe (port_of b d')) E'.
+Proof. exact device_rx_in_order_once. Qed.
+Print Assumptions C08_device_rx_in_order_at_most_once.
+
+Theorem C08_device_delivered_is_subsequence_of_queued :
+  forall (b : bool) (ops : list dop) (tm : Z),
+    forallb (dev_no_lb b) ops = true ->
+    let '(_, E', D') := drx_run b ops (duart_new tm) [] [] in subseq D' E'.
+Proof. exact device_rx_delivered_subseq. Qed.
+Print Assumptions C08_device_delivered_is_subsequence_of_queued.
